@@ -116,6 +116,14 @@ func (g *scriptGen) lineText() []TextPart {
 		if g.o.random {
 			parts = append(parts, TextPart{S: " r="}, TextPart{E: call("random")})
 		}
+	case 6:
+		// a line or label that consists of interpolations only and comes out empty: an element like any other
+		if rapid.IntRange(0, 2).Draw(t, "emptytext") == 0 {
+			parts = []TextPart{{E: str("")}}
+			if rapid.Bool().Draw(t, "twice") {
+				parts = append(parts, TextPart{E: bin("+", str(""), str(""))})
+			}
+		}
 	}
 	if g.o.visitText && rapid.IntRange(0, 1).Draw(t, "visits") == 0 {
 		for _, n := range g.titles {
